@@ -1,2 +1,223 @@
-(* C13 — lemmas about the heap model. *)
+(* C13 — lemmas about the heap model.
+   Spec-level notions (heap typing, footprint disjointness, frames, observations) are defined here; the executable
+   model is in Model.v. *)
 From V Require Import Common.NumFacts C13.Model.
+From Coq Require Import Lia.
+Local Open Scope nat_scope.
+
+(* ================================================================= basic list/heap facts *)
+Lemma nth_error_app_l {A} (l e : list A) r : (r < length l)%nat -> nth_error (l ++ e) r = nth_error l r.
+Proof. intros H. apply nth_error_app1. exact H. Qed.
+
+Lemma nth_error_app_new {A} (l e : list A) k : nth_error (l ++ e) (length l + k) = nth_error e k.
+Proof. rewrite nth_error_app2 by lia. f_equal. lia. Qed.
+
+Lemma nth_error_upd {A} (l : list A) i j x :
+  nth_error (upd l i x) j = if Nat.eqb i j then (if Nat.ltb i (length l) then Some x else None) else nth_error l j.
+Proof.
+  revert i j; induction l as [|a l IH]; intros i j.
+  - simpl. destruct i, j; simpl; auto. destruct (Nat.eqb i j); auto.
+  - destruct i as [|i], j as [|j]; simpl; auto. rewrite IH. reflexivity.
+Qed.
+
+Lemma nth_error_some_lt {A} (l : list A) r c : nth_error l r = Some c -> (r < length l)%nat.
+Proof. intros H. apply nth_error_Some. congruence. Qed.
+
+Lemma wr_length h r c : length (wr h r c) = length h.
+Proof. apply upd_length. Qed.
+
+Lemma wr_other h r c r' : r <> r' -> nth_error (wr h r c) r' = nth_error h r'.
+Proof. intros H. apply nth_error_upd_other. exact H. Qed.
+
+Lemma wr_same h r c : (r < length h)%nat -> nth_error (wr h r c) r = Some c.
+Proof. apply nth_error_upd_same. Qed.
+
+(* ================================================================= heap typing *)
+Definition kind (c : cell) : nat :=
+  match c with CVec _ => 0 | CArr _ => 1 | CPhase _ => 2 | CTC _ _ => 3 | CIdxC _ _ _ => 4 | CIdxM _ _ _ => 5 end%nat.
+Definition is_kind (h : heap) (r : ref) (k : nat) : Prop := exists c, nth_error h r = Some c /\ kind c = k.
+Definition cell_ok (h : heap) (c : cell) : Prop :=
+  match c with
+  | CArr rows => Forall (fun r => is_kind h r 0) rows
+  | CIdxC _ pb d => is_kind h pb 2 /\ is_kind h d 0
+  | CIdxM _ _ d => is_kind h d 1
+  | _ => True
+  end.
+(* every reference stored in a cell points to an existing cell of the right kind *)
+Definition hwf (h : heap) : Prop := forall r c, nth_error h r = Some c -> cell_ok h c.
+Definition swf (h : heap) (s : stream) : Prop :=
+  (is_kind h (imol s) 4 \/ is_kind h (imol s) 5) /\ is_kind h (tc s) 3.
+(* cells are never deallocated and never change kind *)
+Definition ext (h h' : heap) : Prop := forall r k, is_kind h r k -> is_kind h' r k.
+
+Lemma is_kind_lt h r k : is_kind h r k -> (r < length h)%nat.
+Proof. intros (c & H & _). eapply nth_error_some_lt; eauto. Qed.
+
+Lemma is_kind_fun h r k k' : is_kind h r k -> is_kind h r k' -> k = k'.
+Proof. intros (c & H & K) (c' & H' & K'). congruence. Qed.
+
+Lemma ext_refl h : ext h h.
+Proof. intros r k H; exact H. Qed.
+Lemma ext_trans a b c : ext a b -> ext b c -> ext a c.
+Proof. intros H1 H2 r k H. auto. Qed.
+Lemma ext_app h e : ext h (h ++ e).
+Proof.
+  intros r k (c & H & K). exists c. split; auto.
+  rewrite nth_error_app_l; auto. eapply nth_error_some_lt; eauto.
+Qed.
+Lemma ext_wr h r c : (forall c0, nth_error h r = Some c0 -> kind c0 = kind c) -> ext h (wr h r c).
+Proof.
+  intros HK r' k (c' & H & K). destruct (Nat.eq_dec r r') as [->|N].
+  - exists c. split. + apply wr_same. eapply nth_error_some_lt; eauto. + rewrite <- (HK _ H). exact K.
+  - exists c'. split; auto. rewrite wr_other; auto.
+Qed.
+
+Lemma cell_ok_ext h h' c : ext h h' -> cell_ok h c -> cell_ok h' c.
+Proof.
+  intros E. destruct c; simpl; auto.
+  - intros F. eapply Forall_impl; [|exact F]. intros a. apply E.
+  - intros [A B]. split; apply E; auto.
+Qed.
+
+Lemma hwf_app h e : hwf h -> (forall c, In c e -> cell_ok (h ++ e) c) -> hwf (h ++ e).
+Proof.
+  intros W HE r c H. destruct (Nat.lt_ge_cases r (length h)) as [L|G].
+  - rewrite nth_error_app_l in H by auto. eapply cell_ok_ext; [apply ext_app|]. eapply W; eauto.
+  - apply HE. rewrite nth_error_app2 in H by lia. eapply nth_error_In; eauto.
+Qed.
+
+Lemma hwf_wr h r c : hwf h -> (forall c0, nth_error h r = Some c0 -> kind c0 = kind c) -> cell_ok h c -> hwf (wr h r c).
+Proof.
+  intros W HK OK r' c' H. pose proof (ext_wr h r c HK) as E.
+  unfold wr in H. rewrite (nth_error_upd h r r' c) in H. destruct (Nat.eqb r r') eqn:Q.
+  - destruct (Nat.ltb r (length h)); inversion H; subst. eapply cell_ok_ext; eauto.
+  - eapply cell_ok_ext; eauto.
+Qed.
+
+Lemma swf_ext h h' s : ext h h' -> swf h s -> swf h' s.
+Proof. intros E [[A|A] B]; split; auto. Qed.
+
+Lemma is_kind_new h e k c kd : nth_error e k = Some c -> kind c = kd -> is_kind (h ++ e) (length h + k) kd.
+Proof. intros H K. exists c. split; auto. rewrite nth_error_app_new. exact H. Qed.
+
+(* ================================================================= frames *)
+(* cells of h outside F are the same in h' *)
+Definition frame (h h' : heap) (F : list ref) : Prop :=
+  forall r, (r < length h)%nat -> ~ In r F -> nth_error h' r = nth_error h r.
+
+Lemma frame_refl h F : frame h h F.
+Proof. intros r _ _. reflexivity. Qed.
+Lemma frame_app h e F : frame h (h ++ e) F.
+Proof. intros r L _. apply nth_error_app_l. exact L. Qed.
+Lemma frame_wr h r c F : In r F \/ (length h <= r)%nat -> frame h (wr h r c) F.
+Proof.
+  intros HR r' L N. apply wr_other. intros ->. destruct HR; [contradiction|lia].
+Qed.
+Lemma frame_trans h h1 h2 F F' :
+  frame h h1 F -> frame h1 h2 F' -> (length h <= length h1)%nat ->
+  (forall r, In r F' -> In r F \/ (length h <= r)%nat) -> frame h h2 F.
+Proof.
+  intros A B L I r Lr N. rewrite B; [apply A; auto|lia|].
+  intros HF. destruct (I _ HF); [contradiction|lia].
+Qed.
+Lemma frame_weaken h h' F F' : frame h h' F -> incl F F' -> frame h h' F'.
+Proof. intros A I r L N. apply A; auto. Qed.
+
+Lemma ext_length h h' : ext h h' -> (length h <= length h')%nat.
+Proof.
+  intros E. destruct h as [|c h0] eqn:Hh; [simpl; lia|]. rewrite <- Hh in *.
+  assert (L : (length h - 1 < length h)%nat) by (subst; simpl; lia).
+  destruct (nth_error h (length h - 1)) as [c'|] eqn:Q.
+  - assert (K : is_kind h (length h - 1) (kind c')) by (exists c'; auto).
+    apply E in K. apply is_kind_lt in K. lia.
+  - apply nth_error_None in Q. lia.
+Qed.
+
+(* ================================================================= reading through a frame *)
+Section Stable.
+Variables (h h' : heap) (F : list ref).
+Hypothesis FR : frame h h' F.
+
+Lemma rd_stable r k : is_kind h r k -> ~ In r F -> nth_error h' r = nth_error h r.
+Proof. intros K N. apply FR; auto. eapply is_kind_lt; eauto. Qed.
+
+Lemma rdvec_stable r : is_kind h r 0 -> ~ In r F -> rdvec h' r = rdvec h r.
+Proof. intros K N. unfold rdvec. erewrite rd_stable; eauto. Qed.
+Lemma rdrows_stable r : is_kind h r 1 -> ~ In r F -> rdrows h' r = rdrows h r.
+Proof. intros K N. unfold rdrows. erewrite rd_stable; eauto. Qed.
+Lemma rdphase_stable r : is_kind h r 2 -> ~ In r F -> rdphase h' r = rdphase h r.
+Proof. intros K N. unfold rdphase. erewrite rd_stable; eauto. Qed.
+Lemma rdtc_stable r : is_kind h r 3 -> ~ In r F -> rdtc h' r = rdtc h r.
+Proof. intros K N. unfold rdtc. erewrite rd_stable; eauto. Qed.
+End Stable.
+
+(* the cells a stream reaches are typed *)
+Lemma footprint_chem h s k pb d : hwf h -> nth_error h (imol s) = Some (CIdxC k pb d) ->
+  is_kind h pb 2 /\ is_kind h d 0.
+Proof. intros W H. exact (W _ _ H). Qed.
+Lemma footprint_multi h s k phs d : hwf h -> nth_error h (imol s) = Some (CIdxM k phs d) ->
+  is_kind h d 1 /\ Forall (fun r => is_kind h r 0) (rdrows h d).
+Proof.
+  intros W H. pose proof (W _ _ H) as K. simpl in K. split; auto.
+  destruct K as (c & Hc & Kc). unfold rdrows. rewrite Hc. destruct c; simpl in Kc; try discriminate.
+  exact (W _ _ Hc).
+Qed.
+
+Lemma swf_cases h s : swf h s ->
+  ((exists k pb d, nth_error h (imol s) = Some (CIdxC k pb d)) \/
+   (exists k phs d, nth_error h (imol s) = Some (CIdxM k phs d))) /\
+  exists T P, nth_error h (tc s) = Some (CTC T P).
+Proof.
+  intros [[(c & H & K)|(c & H & K)] (t & Ht & Kt)]; (split; [|destruct t; simpl in Kt; try discriminate; eauto]);
+    destruct c; simpl in K; try discriminate; eauto.
+Qed.
+
+(* a stream whose cells are all outside F reads the same through the frame *)
+Lemma stream_stable h h' F s labels : hwf h -> swf h s -> frame h h' F ->
+  (forall r, In r (footprint h s) -> ~ In r F) ->
+  footprint h' s = footprint h s /\ observe h' s labels = observe h s labels.
+Proof.
+  intros W S FR N. destruct (swf_cases _ _ S) as [[(k & pb & d & Hi)|(k & phs & d & Hi)] (T & P & Ht)].
+  - destruct (footprint_chem _ _ _ _ _ W Hi) as [Kp Kd].
+    assert (FP : footprint h s = [imol s; d; pb; tc s]) by (unfold footprint; rewrite Hi; reflexivity).
+    rewrite FP in N.
+    assert (Hi' : nth_error h' (imol s) = Some (CIdxC k pb d)).
+    { rewrite <- Hi. apply FR; [eapply nth_error_some_lt; eauto|apply N; simpl; auto]. }
+    assert (Ht' : nth_error h' (tc s) = nth_error h (tc s)).
+    { apply FR; [eapply nth_error_some_lt; eauto|apply N; simpl; auto]. }
+    split.
+    + unfold footprint. rewrite Hi', Hi. reflexivity.
+    + unfold observe. rewrite Hi', Hi. unfold rdtc. rewrite Ht'.
+      rewrite (rdphase_stable _ _ _ FR pb Kp) by (apply N; simpl; auto).
+      rewrite (rdvec_stable _ _ _ FR d Kd) by (apply N; simpl; auto). reflexivity.
+  - destruct (footprint_multi _ _ _ _ _ W Hi) as [Kd Kr].
+    assert (FP : footprint h s = imol s :: d :: rdrows h d ++ [tc s]) by (unfold footprint; rewrite Hi; reflexivity).
+    rewrite FP in N.
+    assert (Hi' : nth_error h' (imol s) = Some (CIdxM k phs d)).
+    { rewrite <- Hi. apply FR; [eapply nth_error_some_lt; eauto|apply N; simpl; auto]. }
+    assert (Ht' : nth_error h' (tc s) = nth_error h (tc s)).
+    { apply FR; [eapply nth_error_some_lt; eauto|apply N; simpl; right; right; apply in_or_app; right; simpl; auto]. }
+    assert (Hr : rdrows h' d = rdrows h d) by (apply (rdrows_stable _ _ _ FR d Kd); apply N; simpl; auto).
+    assert (Hv : map (rdvec h') (rdrows h d) = map (rdvec h) (rdrows h d)).
+    { apply map_ext_in. intros r Hr0. apply (rdvec_stable _ _ _ FR r).
+      - rewrite Forall_forall in Kr. auto.
+      - apply N. simpl. right; right. apply in_or_app; left; auto. }
+    split.
+    + unfold footprint. rewrite Hi', Hi, Hr. reflexivity.
+    + unfold observe. rewrite Hi', Hi, Hr, Hv. unfold rdtc. rewrite Ht'. reflexivity.
+Qed.
+
+(* every cell of a well-formed stream is allocated *)
+Lemma footprint_lt h s r : hwf h -> swf h s -> In r (footprint h s) -> (r < length h)%nat.
+Proof.
+  intros W S I. destruct (swf_cases _ _ S) as [[(k & pb & d & Hi)|(k & phs & d & Hi)] (T & P & Ht)].
+  - destruct (footprint_chem _ _ _ _ _ W Hi) as [Kp Kd]. unfold footprint in I. rewrite Hi in I.
+    simpl in I. destruct I as [<-|[<-|[<-|[<-|[]]]]];
+      eauto using is_kind_lt, nth_error_some_lt.
+  - destruct (footprint_multi _ _ _ _ _ W Hi) as [Kd Kr]. unfold footprint in I. rewrite Hi in I.
+    simpl in I. destruct I as [<-|[<-|I]]; eauto using is_kind_lt, nth_error_some_lt.
+    apply in_app_or in I. destruct I as [I|[<-|[]]]; eauto using nth_error_some_lt.
+    rewrite Forall_forall in Kr. eapply is_kind_lt; eauto.
+Qed.
+
+Definition disjoint (a b : list ref) : Prop := forall r, In r a -> ~ In r b.
